@@ -43,7 +43,7 @@ class C15(Check):
             "file-operation level, or a read through a cached handle right after another process wrote.")
     assumptions = ["interleavings are at file-system-operation granularity; atomicity of a single write()/read() is the kernel's",
                    "all processes log in the same user (the shared token key makes private objects mutually readable)"]
-    essential_labels = {"cross_process_observations": 3000, "overlapping_schedules": 150, "cached_handle_reads": 300}
+    essential_labels = {"cross_process_observations": 2000, "overlapping_schedules": 150, "cached_handle_reads": 200}
 
     def setup(self, ctx):
         ctx.shared["tpl"] = Template(ctx.env, ntokens=1)
